@@ -252,6 +252,10 @@ func runC01(c *Ctx) {
 		c.Check("C01.R", "respChan:single-receive", p, posOf(pos), ok, "exactly one receive site, in ServeHTTP, outside any loop: a response object reaches at most one client", fmt.Sprintf("receive sites on respChan: %d (must be exactly one, in ServeHTTP, not in a loop)", len(recvs)))
 	}
 
+	// ---- C01.S
+	c.Rule("C01.S", "websocket-shim sessions: unique session IDs (a shared ID hands one client the other's messages)", 2)
+	ruleShimSessionIDs(c, p, "C01.S")
+
 	// ---- C01.A
 	c.Rule("C01.A", "chain of custody of (backend ID, request ID) through the agent, by parameter role", 35)
 	if f := c.need(p, "C01.A", "agent.pollForNewRequests"); f != nil {
